@@ -40,7 +40,7 @@ Header == /\ Rec[l].ev = "Header"
           /\ UNCHANGED <<sp, end, tbl, under, prev, off0, desc, viol>>
 
 Build == /\ Rec[l].ev = "Build"
-         /\ Report(Names(<< <<"EndOk", EndOkOf(Rec[l])>> >>))
+         /\ Report(Names(<< <<"EndOk", EndOkOf(Rec[l])>>, <<"NoInternalErr", NoInternalErrOf(Rec[l])>> >>))
          /\ UNCHANGED <<sp, end, tbl, under, prev, off0, desc, stats>>
 
 Skipped == /\ Rec[l].ev = "NetRejected"
@@ -61,7 +61,7 @@ Table == /\ Rec[l].ev = "Table"
                                            !.toy_tables = @ + (IF Rec[l].toy THEN 1 ELSE 0),
                                            !.drift = @ + (IF Rec[l].toy /\ tbl' # ToyTable THEN 1 ELSE 0)]
             ELSE /\ UNCHANGED <<sp, end, tbl>>
-                 /\ Report(Names(<< <<"EndOk", EndOkOf(Rec[l])>> >>))
+                 /\ Report(Names(<< <<"EndOk", EndOkOf(Rec[l])>>, <<"NoInternalErr", NoInternalErrOf(Rec[l])>> >>))
                  /\ Bump("table_err")
          /\ UNCHANGED <<under, prev, off0, desc>>
 
@@ -90,6 +90,7 @@ StepCap == /\ Rec[l].ev = "stepcap"
 (* end of the harness-driven run *)
 Final == /\ Rec[l].ev = "Final"
          /\ Report(Names(<< <<"EndOk", EndOkOf(Rec[l])>>,
+                            <<"NoInternalErr", NoInternalErrOf(Rec[l])>>,
                             <<"StopWindow", Rec[l].ok => StopWindowOf(Rec[l], off0)>> >>))
          /\ Bump(IF Rec[l].ok THEN "runs_ok" ELSE "runs_err")
          /\ UNCHANGED <<sp, end, tbl, under, prev, off0, desc>>
@@ -97,17 +98,18 @@ Final == /\ Rec[l].ev = "Final"
 (* the library's own walk() / walk_timed_path() on a clone *)
 Walk == /\ Rec[l].ev = "Walk"
         /\ Report(Names(<< <<"EndOk", EndOkOf(Rec[l])>>,
+                           <<"NoInternalErr", NoInternalErrOf(Rec[l])>>,
                            <<"StopWindow", Rec[l].ok => StopWindowOf(Rec[l], off0)>> >>))
         /\ stats' = [stats EXCEPT !.walks = @ + 1, !.walk_differs = @ + (IF Rec[l].same THEN 0 ELSE 1)]
         /\ UNCHANGED <<sp, end, tbl, under, prev, off0, desc>>
 
 EstTimes == /\ Rec[l].ev = "EstTimes"
-            /\ Report(Names(<< <<"EndOk", EndOkOf(Rec[l])>> >>))
+            /\ Report(Names(<< <<"EndOk", EndOkOf(Rec[l])>>, <<"NoInternalErr", NoInternalErrOf(Rec[l])>> >>))
             /\ Bump(IF Rec[l].ok THEN "est_ok" ELSE "est_err")
             /\ UNCHANGED <<sp, end, tbl, under, prev, off0, desc>>
 
 Dispatch == /\ Rec[l].ev = "Dispatch"
-            /\ Report(Names(<< <<"EndOk", EndOkOf(Rec[l])>> >>))
+            /\ Report(Names(<< <<"EndOk", EndOkOf(Rec[l])>>, <<"NoInternalErr", NoInternalErrOf(Rec[l])>> >>))
             /\ Bump(IF Rec[l].ok THEN "disp_ok" ELSE "disp_err")
             /\ UNCHANGED <<sp, end, tbl, under, prev, off0, desc>>
 
